@@ -73,5 +73,16 @@ impl VxPercentEncode {
 }
 #[verifier::external_body]
 pub fn percent_encode(b: &[u8], set: VxSet) -> (r: VxPercentEncode) ensures r.text() == pe(b@, set) { unimplemented!() }
+/// the crate's own path and its `&str` form (`utf8_percent_encode(s, set)` is `percent_encode(s.as_bytes(), set)`,
+/// percent-encoding 2.x)
+pub mod percent_encoding {
+    use crate::*;
+    verus! {
+    #[verifier::external_body]
+    pub fn utf8_percent_encode(s: &str, set: VxSet) -> (r: VxPercentEncode) ensures r.text() == pe(str_bytes(s@), set) { unimplemented!() }
+    #[verifier::external_body]
+    pub fn percent_encode(b: &[u8], set: VxSet) -> (r: VxPercentEncode) ensures r.text() == pe(b@, set) { unimplemented!() }
+    }
+}
 #[verifier::external_body]
 pub fn vx_str_bytes(s: &str) -> (r: &[u8]) ensures r@ == str_bytes(s@) { unimplemented!() }
